@@ -77,6 +77,8 @@ func ResultFromError(err error) OperationResult {
 		return OperationResult{Error: aborted, Details: e.details}
 	case *NotOwner:
 		return OperationResult{Error: notOwner, Details: e.details}
+	case *Error:
+		return OperationResult{Error: e.name, Details: e.details}
 	default:
 		return OperationResult{Error: e.Error()}
 	}
